@@ -1,12 +1,12 @@
 package props
 
 import (
-	"strings"
 	"encoding/json"
 	"fmt"
 	"hash/fnv"
 	"os"
 	"sort"
+	"strings"
 	"testing"
 	"time"
 )
